@@ -147,7 +147,7 @@ def rule_flow_config_names(ctx):
             if not ok:
                 r.violate(nid, 'setter-fields', ','.join(f for f, _ in changed), 'builder setter %s changes field(s) %s (expected exactly `%s` = Some(parameter), others preserved)'
                           % (nid, [(f, fmt(v)[:40]) for f, v in changed], b.name), where=ctx.where(nid))
-    r.require_floor(40, 'configuration wires (call arguments, struct fields, getters, setters)')
+    r.require_floor(40 if ctx.has_sync else 20, 'configuration wires (call arguments, struct fields, getters, setters)')
     return r
 
 
@@ -320,7 +320,7 @@ def rule_default_consts(ctx):
                 r.instance(function=nid, non_none_defaults=bad, ok=not bad)
                 if bad:
                     r.violate(nid, 'builder-default', ','.join(bad), 'the default builder presets %s' % bad, where=ctx.where(nid))
-    r.require_floor(8, 'default-value obligations')
+    r.require_floor(8 if ctx.has_sync else 4, 'default-value obligations')
     return r
 
 
@@ -421,5 +421,5 @@ def rule_initcap_sink(ctx):
                     if not okc:
                         r.violate(nid, 'initial-capacity-sink', str(callee).split('::')[-1], 'a value computed from initial_capacity is passed to %s in %s' % (callee, nid),
                                   where=ctx.where(nid, t.get('line')), expected='only Option adaptors, + WRITE_LOG_SIZE, with_capacity_and_hasher')
-    r.require_floor(8, 'uses of initial_capacity')
+    r.require_floor(8 if ctx.has_sync else 3, 'uses of initial_capacity')
     return r
